@@ -163,7 +163,7 @@ PROPS["C09"] = {
     "assumptions": [
         "only the readers in reach are decided (cell, reference, type word, pool header/data, property values, whole row streams via Table::read_rows); allocation of the row vectors is modelled as succeeding (at most 65536 rows); exec call sites, the FFI expect, and hangs/aborts from huge allocation requests are NOT covered",
         "group joincond (rule X15): two BLOCKS of Join::exec -- for the inner and for the left join, the statements from the validation of the condition's column names through the nested loops that evaluate the condition on every pair of rows -- extracted as functions. Proved: no block panics; in particular the precondition of Expr::eval (the row has every column the expression names -- what C13's proof of eval assumes) holds at its call site, because a condition naming a column the joined table lacks is refused first (found and fixed: D23, the condition was evaluated unchecked and select_rows panicked). Assumed: the joined table has the columns of both sides and every input row has its table's number of cells (block preconditions; established by code outside the blocks); Expr::column_names returns the names eval looks up (an uninterpreted set shared by the two imported contracts); HashSet iteration, the chain/cloned/collect and map/collect expressions are shims",
-        "group opencat (rule X15): seven BLOCKS of statements of Package::open -- the bodies of the loops that read _Tables, _Columns and _Validation, and the parts of the column-construction loop that read the Nullable flag, the value range and the foreign key -- are extracted as functions whose parameters (the block's free variables) are declared in the template; everything else of Package::open is dropped. Proved: no block panics (no unwrap on a null cell, no index out of range) for any row with the table's number of cells, and a null cell in a place that needs a value is an error (found and fixed: D20, the cells were unwrapped). Assumed about a row: one cell per column, and in integer / string columns an integer-or-null / string-or-null cell (what Table::read_rows and the cell readers are proved to hand out: groups rows, readers); ValueRef::to_value is imported (group pool); ColumnBuilder::nullable / range / foreign_key are opaque stubs; HashMap / HashSet calls are vstd's. The category / enumeration cells, the column-number completeness checks and the rest of Package::open are NOT covered",
+        "group opencat (rule X15): nine BLOCKS of statements of Package::open -- the bodies of the loops that read _Tables, _Columns and _Validation, and the parts of the column-construction loop that read the Nullable flag, the value range, the foreign key, the category and the enumeration (Set: re-derived as ALL pieces of the stored text between the ';'s, in order) -- are extracted as functions whose parameters (the block's free variables) are declared in the template; everything else of Package::open is dropped. Proved: no block panics (no unwrap on a null cell, no index out of range) for any row with the table's number of cells, and a null cell in a place that needs a value is an error (found and fixed: D20, the cells were unwrapped). Assumed about a row: one cell per column, and in integer / string columns an integer-or-null / string-or-null cell (what Table::read_rows and the cell readers are proved to hand out: groups rows, readers); ValueRef::to_value is imported (group pool); ColumnBuilder::nullable / range / foreign_key are opaque stubs; HashMap / HashSet calls are vstd's. The column-number completeness checks and the rest of Package::open are NOT covered; parse::<Category>() and split(';').collect() are shims",
     ],
 }
 
@@ -189,6 +189,7 @@ PROPS["C10"]["verus"]["readers"] = ["vx_read_whole", "SummaryInfo::read", "Prope
                                     "lemma_pv_pair", "lemma_pv_pair_small", "lemma_pv_pair_i1", "lemma_pv_pair_i2", "lemma_pv_pair_str", "lemma_lpstr_layout", "lemma_pv_pair_time", "lemma_le32_rt", "lemma_le16_rt", "lemma_u64_halves", "lemma_i16_rt", "lemma_i32_rt", "lemma_i8_rt"]
 PROPS["C19"]["verus"]["queryfmt"] = ["Delete::fmt", "Insert::fmt", "Update::fmt", "Join::fmt", "Select::format_for_join", "Select::fmt"]
 PROPS["C06"]["verus"]["mktable"] = ["Package::create_table_with_name", "Column::is_storable", "Column::has_storable_enum_values"]
+PROPS["C06"]["verus"]["opencat"] = ["Package::vx_open_set_cell"]
 PROPS["C07"]["verus"]["execgate"] = ["Insert::exec", "Update::exec", "Table::columns"]
 PROPS["C07"]["verus"]["category"] = ["Category::validate", "lemma_blen_nonneg", "lemma_blen_empty", "lemma_blen_ends", "lemma_last_of"]
 PROPS["C10"]["verus"]["propset"] = SUMMARY_FNS + ["lemma_in_step_set_codepage", "lemma_in_step_insert", "lemma_in_step_remove",
@@ -235,7 +236,7 @@ PROPS["C15"]["verus"]["readers"] = ["StringRef::read", "ColumnType::read_value",
                                     "StringPoolBuilder::build_from_data", "PropertySet::read"]
 PROPS["C15"]["verus"]["rows"] = ["Table::read_rows"]
 OPENCAT_BLOCKS = ["Package::vx_open_tables_row", "Package::vx_open_columns_row_name", "Package::vx_open_columns_row_cells", "Package::vx_open_validation_row",
-                  "Package::vx_open_nullable_cell", "Package::vx_open_range_cells", "Package::vx_open_key_cells"]
+                  "Package::vx_open_nullable_cell", "Package::vx_open_range_cells", "Package::vx_open_key_cells", "Package::vx_open_category_cell", "Package::vx_open_set_cell"]
 PROPS["C09"]["verus"]["opencat"] = OPENCAT_BLOCKS + ["catalog_str", "catalog_int", "Value::as_str", "Value::as_int", "Value::is_null"]
 PROPS["C09"]["verus"]["joincond"] = ["Join::vx_join_inner_rows", "Join::vx_join_left_rows", "Value::to_bool"]
 PROPS["C09"]["probes"] = dict({b: ["catalognull"] for b in OPENCAT_BLOCKS}, **{"Join::vx_join_inner_rows": ["joincol"], "Join::vx_join_left_rows": ["joincol"], "StringPoolBuilder::build_from_data": ["zerorc"], "StringPool::decref": ["dangling"], "ValueRef::remove": ["dangling"]})
